@@ -352,16 +352,32 @@ def machl(m):
         vlist("(%s, %s)" % (chipl((x, y)), zlit(l)) for x, y, l in m["dead_links"]))
 
 
-HEADER = ("From Coq Require Import ZArith List Bool. Import ListNotations. Open Scope Z_scope.\n"
-          "Require Import Rig.Model.Base Rig.Model.Route Rig.Spec.Route.\n"
-          "Definition cls {A} (r : result A) : Z := match r with Ok _ => 0 | Failed _ => 1 | "
-          "OtherError => 2 | OutOfFuel => 3 end.\n")
+HEADER = """From Coq Require Import ZArith List Bool. Import ListNotations. Open Scope Z_scope.
+Require Import Rig.Model.Base Rig.Model.Route Rig.Spec.Route.
+Definition cls {A} (r : result A) : Z :=
+  match r with Ok _ => 0 | Failed _ => 1 | OtherError => 2 | OutOfFuel => 3 end.
+Definition ner_same (r : result (rtree * list chip)) (t : option rtree) (keys : list chip) : bool :=
+  match r, t with Ok (t', keys'), Some t => rtree_eqb t' t && chips_eqb keys' keys | _, _ => false end.
+Definition fin_same (r : result rtree) (t : option rtree) : bool :=
+  match r, t with Ok t', Some t => rtree_eqb t' t | _, _ => false end.
+(* has_wrap, ner tree + dict keys equal, class of the model's result, final tree equal, check_tree on the
+   implementation's tree, check_connected *)
+Definition route_case (m : rmachine) (pl : list (Z * chip)) (cons : list (Z * Z)) (al : list (Z * (Z * Z)))
+           (source : Z) (src : chip) (sinks : list Z) (dests : list chip) (radius : Z) (s : list Z)
+           (order : option (list (chip * chip))) (iner : option rtree) (ikeys : list chip)
+           (ifin : option rtree) : bool * bool * Z * bool * bool * bool :=
+  let rr := route_net m source sinks dests pl cons al radius s order in
+  (has_wrap m,
+   ner_same (ner_net src dests (rm_w m) (rm_h m) (has_wrap m) radius s) iner ikeys,
+   cls rr, fin_same rr ifin,
+   match ifin with Some t => check_tree m src (sink_reqs sinks pl cons al) t | None => false end,
+   check_connected m).
+"""
 
 
 def coq_route_expr(c, out, i):
     """model vs implementation for net i of a route() case; -> Coq expression of type
-    (bool * bool * Z * bool * bool * bool): has_wrap, ner tree + dict keys equal, class of the model's
-    result, final tree equal, check_tree on the implementation's tree, check_connected"""
+    (bool * bool * Z * bool * bool * bool), see route_case in HEADER"""
     e = out["nets"][i]
     net = c["nets"][i]
     pl = vlist("(%s, %s)" % (zlit(v), chipl(xy)) for v, xy in c["placements"])
@@ -376,28 +392,19 @@ def coq_route_expr(c, out, i):
     final = e.get("final")
     have_final = final is not None and final[0] == "n"
     have_ner = e.get("ner") is not None and e["ner"][0] == "n"
-    return ("let m := %s in let pl := %s in let cons := %s in let al := %s in let sinks := %s in "
-            "let dests := %s in let s := %s in "
-            "let rn := ner_net %s dests (rm_w m) (rm_h m) (has_wrap m) %s s in "
-            "let rr := route_net m %s sinks dests pl cons al %s s %s in "
-            "(has_wrap m, %s, cls rr, %s, %s, check_connected m)" % (
-                machl(c["machine"]), pl, cons, al, sinks, dests, stream,
-                chipl(src), zlit(c["radius"]),
-                zlit(net["source"]), zlit(c["radius"]), order,
-                ("match rn with Ok (t, keys) => rtree_eqb t (%s) && chips_eqb keys %s | _ => false end"
-                 % (treel(e["ner"]), vlist(chipl(k) for k in e["keys"]))) if have_ner else "false",
-                ("match rr with Ok t => rtree_eqb t (%s) | _ => false end" % treel(final))
-                if have_final else "false",
-                ("check_tree m %s (sink_reqs sinks pl cons al) (%s)" % (chipl(src), treel(final)))
-                if have_final else "false"))
+    return "route_case %s %s %s %s %s %s %s %s %s %s %s %s %s %s" % (
+        machl(c["machine"]), pl, cons, al, zlit(net["source"]), chipl(src), sinks, dests,
+        zlit(c["radius"]), stream, order,
+        "(Some (%s))" % treel(e["ner"]) if have_ner else "None",
+        vlist(chipl(k) for k in e["keys"]) if have_ner else "[]",
+        "(Some (%s))" % treel(final) if have_final else "None")
 
 
 def coq_ner_expr(c, out):
-    return ("match ner_net %s %s %s %s %s %s %s with Ok (t, keys) => rtree_eqb t (%s) && chips_eqb keys %s "
-            "| _ => false end" % (
-                chipl(c["source"]), vlist(chipl(d) for d in c["dests"]), zlit(c["w"]), zlit(c["h"]),
-                "true" if c["wrap"] else "false", zlit(c["radius"]), vlist(zlit(k) for k in c["stream"]),
-                treel(out["ner"]), vlist(chipl(k) for k in out["keys"])))
+    return "ner_same (ner_net %s %s %s %s %s %s %s) (Some (%s)) %s" % (
+        chipl(c["source"]), vlist(chipl(d) for d in c["dests"]), zlit(c["w"]), zlit(c["h"]),
+        "true" if c["wrap"] else "false", zlit(c["radius"]), vlist(zlit(k) for k in c["stream"]),
+        treel(out["ner"]), vlist(chipl(k) for k in out["keys"]))
 
 
 # ------------------------------------------------------------------ exhaustive small domain (thorough)
